@@ -5,7 +5,8 @@
            6 silence with h = 1 s / 7 a frame answered by a client exception,
            per thread (calls that succeeded, ended with an error, ms from the fault to it),
            number of threads, consumer (last terminal message 6 = ServerClosedConnection, queue
-           disconnected), what close() returned, transport released, some thread never came
+           disconnected), what close() returned (99: the connection was dropped instead, and drop
+           came back), transport released, some thread never came
            back, some reply was not the reply to the call that got it, fault 0 only: the
            client's Connection.Close is the last frame it sent and the wire is whole frames) *)
 From Amq Require Export Lib.Base Gen.Consts Model.Wire Model.Frames Model.OutBuf Model.Collector
@@ -42,7 +43,7 @@ Definition model_code (fault : N) : N :=
 
 Definition model_out (c : case) : N := let '(fault, _, _, _, _, _, _, _, _) := c in model_code fault.
 Definition model_agrees (c : case) : bool :=
-  let '(fault, _, _, _, code, _, _, _, _) := c in code =? model_code fault.
+  let '(fault, _, _, _, code, _, _, _, _) := c in (code =? 99) || (code =? model_code fault).
 
 (* the property on the observations: nobody hangs, every caller gets an error in bounded time,
    the consumer's queue ends, close() names the root cause, the transport is released - and
@@ -52,7 +53,7 @@ Definition oracle_ok (c : case) : bool :=
   negb hang && (N.of_nat (length threads) =? nthreads) &&
   forallb (fun '(_, err, ms) => err && (ms <=? (if fault =? 6 then 4500 else 3000))) threads &&
   disconnected && released && negb misrouted &&
-  (code =? fault) && wire_ok &&
+  ((code =? fault) || (code =? 99)) && wire_ok &&
   (if fault =? 5 then terminal =? 6 else if fault =? 0 then terminal =? 5 else true).
 
 Fixpoint bad_idx {A} (f : A -> bool) (i : N) (l : list A) : list N :=
